@@ -10,6 +10,7 @@ import (
 	"os"
 	"os/exec"
 	"path/filepath"
+	"runtime/pprof"
 	"sort"
 	"strconv"
 	"strings"
@@ -303,6 +304,14 @@ func runReplay(path string, verbose bool) int {
 	if p == nil {
 		fmt.Fprintln(os.Stderr, "unknown property", t.Property)
 		return exitInfra
+	}
+	if pf := os.Getenv("VERIF_CPUPROFILE"); pf != "" && verbose {
+		// diagnosis aid for .slow findings: go tool pprof -top .build/dsim <file>
+		if f, err := os.Create(pf); err == nil {
+			if pprof.StartCPUProfile(f) == nil {
+				core.AtExit(func() { pprof.StopCPUProfile(); f.Close() })
+			}
+		}
 	}
 	lim := uint64(envInt("VERIF_AS_GIB", 12)) << 30
 	_ = syscall.Setrlimit(syscall.RLIMIT_AS, &syscall.Rlimit{Cur: lim, Max: lim})
